@@ -32,7 +32,22 @@ def pre(ctx):
         raise core.Fail("extract_uid.py failed: " + p.stderr[-2000:])
 
 
+MANY = ["(def (Report (x 0))) (when true (:= Report.x %d) (report))" % (100 + i) for i in range(8)]
+
+
 def gen(ctx):
+    from . import rtgen as R
+    # "the uid in the scope is the uid placed in the install message FOR THAT PROGRAM and echoed in reports": runtimes with many
+    # distinct programs; every flow selects one, the change-program must name the uid whose install carried THAT program's code,
+    # and reports under that uid must be read with that program's scope
+    hx = R.hx
+    progs = ",".join("q%d=%s" % (i, hx(t)) for i, t in enumerate(MANY))
+    for i in range(8):
+        j = (i + 3) % 8
+        yield Case("RUN", "ALG %s 1 PROGS %s NF sp:q%d:- OR gf:%s,sp:q%d:-,gfp:q%d:%s SCRIPT 5:RD.1 5:CR.1.10.1460.1.2.3.4.%s 5:MS.1.u:q%d.%d 5:MS.1.u:q%d.%d 5:MS.1.u:q%d.%d X"
+                   % (hx("reno"), progs, i, hx("Report.x"), j, i, hx("Report.x"), hx("reno"), i, 100 + i, j, 100 + j, i, 100 + i), tags=("run-many-programs",))
+    for _ in range(1500 if ctx.thorough else 150):
+        yield Case("RUN", R.gen_case(ctx.rng, n=ctx.rng.randrange(4, 16), adversarial=0.0, faults=0.0, stop=0.0), tags=("run",))
     for n in [1, 2, 3, 10, 50, 200]:
         yield Case("UID", "seq %d" % n, tags=("seq",))
     yield Case("UID", "flow", tags=("flow",))
@@ -43,10 +58,14 @@ def gen(ctx):
 
 
 def classify(c, r):
+    if c.cmd == "RUN":
+        return [c.tags[0] + ":" + r.split(" | ")[-1].split(" ")[1]]
     return [c.tags[0] + ":" + r.split(" ")[0]]
 
 
 def nontrivial(c, r):
+    if c.cmd == "RUN":
+        return " CP " in r and " IN " in r
     return c.tags[0] == "stress" or (c.tags[0] == "seq" and int(c.args.split(" ")[1]) >= 10)
 
 
